@@ -50,6 +50,7 @@ class RuleResult:
         self.stats = {}
         self.notes = []
         self.floor_failures = []
+        self.unrecognised_items = []
 
     def _add(self, status, site, construct, detail=None, reason=""):
         if isinstance(site, Func):
@@ -72,6 +73,20 @@ class RuleResult:
 
     def justified(self, site, construct, reason, detail=None):
         return self._add("justified", site, construct, detail, reason)
+
+    def unrecognised(self, site, construct, detail=None, reason=""):
+        """The anchor's shape could not be interpreted (neither confirmed nor
+        refuted).  Never a pass and never an accusation: if the rule has no
+        violation to report, the run ends as an analysis error (exit 2)."""
+        if isinstance(site, Func):
+            site = site.qualname
+        self.unrecognised_items.append(f"{site.split('::')[-1]} :: {construct}" + (f" ({reason})" if reason else ""))
+
+    def judge(self, verdict, site, construct, detail=None, reason=""):
+        """verdict: True (holds) / False (refuted) / None (shape not recognised)."""
+        if verdict is None:
+            return self.unrecognised(site, construct, detail, reason)
+        return self.check(bool(verdict), site, construct, detail, reason)
 
     def check(self, cond, site, construct, detail=None, reason=""):
         return self._add("ok" if cond else "violation", site, construct, detail, reason)
@@ -121,6 +136,8 @@ class Ctx:
             fn, title = RULES[rule_id]
             res = RuleResult(rule_id, title)
             fn(self, res)
+            if res.unrecognised_items and not res.violations():
+                raise AnalysisError(f"rule {rule_id}: cannot interpret the current shape of: " + "; ".join(res.unrecognised_items))
             if res.floor_failures and not res.violations():
                 raise AnalysisError("; ".join(res.floor_failures))
             self._cache[key] = res
